@@ -55,6 +55,7 @@ type clusterEvent struct {
 	Rep     int     `json:"rep"`
 	Node    int     `json:"node"`
 	Down    []int   `json:"down"`
+	Refuse  []int   `json:"refuse"` // answer HEAD, refuse replicas
 	Del     string  `json:"del"`
 	Tasks   []taskJ `json:"tasks"`
 	Rep2    [][]int `json:"reported"` // per task: nodes passed to SubmitSuccessfulReplication
@@ -80,6 +81,7 @@ type clusterWorld struct {
 	sc   *clusterScenario
 	addr oid.Address
 	down map[int]bool
+	refuse map[int]bool
 	ev   *clusterEvent
 	cur  int // index of the task being executed in ev.Tasks, -1 = none
 }
@@ -138,6 +140,9 @@ func (w *clusterWorld) head(node int, cnr cid.ID, id oid.ID) (*object.Object, er
 func (w *clusterWorld) replicate(node int, _ oid.ID, src io.ReadSeeker) error {
 	if w.down[node] {
 		return errors.New("dial tcp: i/o timeout")
+	}
+	if w.refuse[node] {
+		return errors.New("status: code = 1024 message = no space left on device")
 	}
 	// the replicator shares one stream between the nodes of a task (client.DemuxReplicatedObject)
 	if _, err := src.Seek(0, io.SeekStart); err != nil {
@@ -210,18 +215,22 @@ func (w *clusterWorld) holders() []int {
 }
 
 // check runs one policy check of the object on node id and returns the event.
-func (w *clusterWorld) check(id int, down []int, round int) clusterEvent {
-	ev := clusterEvent{Ev: "check", List: []int{}, Node: id, Down: append([]int{}, down...), Del: "none", Tasks: []taskJ{}, Rep2: [][]int{}, Round: round}
+func (w *clusterWorld) check(id int, down, refuse []int, round int) clusterEvent {
+	ev := clusterEvent{Ev: "check", List: []int{}, Node: id, Down: append([]int{}, down...), Refuse: append([]int{}, refuse...), Del: "none", Tasks: []taskJ{}, Rep2: [][]int{}, Round: round}
 	w.ev = &ev
 	w.down = map[int]bool{}
 	for _, d := range down {
 		w.down[d] = true
 	}
+	w.refuse = map[int]bool{}
+	for _, d := range refuse {
+		w.refuse[d] = true
+	}
 	before := slices.Contains(w.holders(), id)
 	w.nodes[id].pol.VerifProcessObject(context.Background(), objectcore.AddressWithAttributes{
 		Address: w.addr, Type: object.TypeRegular, Attributes: []string{"", "", ""}, ShardIDs: []string{"s"},
 	})
-	w.down = map[int]bool{}
+	w.down, w.refuse = map[int]bool{}, map[int]bool{}
 	// a copy marked redundant stays readable until the GC removes it; the model removes it at once, so the
 	// node's GC is run synchronously after its check
 	for _, sh := range w.nodes[id].eng.VerifShards() {
@@ -251,7 +260,7 @@ func (w *clusterWorld) runScenario(sc clusterScenario, r *rand.Rand, out *kit.W)
 	for _, h := range sc.Holders {
 		kit.Must(w.nodes[h].eng.Put(context.Background(), obj, nil))
 	}
-	out.Emit(clusterEvent{Ev: "init", N: sc.N, List: sc.List, Rep: sc.Rep, Holders: w.holders(), Down: []int{}, Tasks: []taskJ{}, Rep2: [][]int{}, Del: "none"})
+	out.Emit(clusterEvent{Ev: "init", N: sc.N, List: sc.List, Rep: sc.Rep, Holders: w.holders(), Down: []int{}, Refuse: []int{}, Tasks: []taskJ{}, Rep2: [][]int{}, Del: "none"})
 	round := func(faulty bool, no int) (quiet bool) {
 		quiet = true
 		order := w.holders()
@@ -260,15 +269,21 @@ func (w *clusterWorld) runScenario(sc clusterScenario, r *rand.Rand, out *kit.W)
 			if !slices.Contains(w.holders(), id) {
 				continue // lost its copy earlier in this round
 			}
-			var down []int
+			var down, refuse []int
 			if faulty {
 				for x := 1; x <= sc.N; x++ {
-					if x != id && r.Intn(3) == 0 {
+					if x == id {
+						continue
+					}
+					switch r.Intn(5) {
+					case 0:
 						down = append(down, x)
+					case 1, 2:
+						refuse = append(refuse, x)
 					}
 				}
 			}
-			ev := w.check(id, down, no)
+			ev := w.check(id, down, refuse, no)
 			sort.Ints(ev.Holders)
 			out.Emit(ev)
 			if len(ev.Tasks) > 0 || ev.Del != "none" {
@@ -285,7 +300,7 @@ func (w *clusterWorld) runScenario(sc clusterScenario, r *rand.Rand, out *kit.W)
 		quiet = round(false, rounds)
 		rounds++
 	}
-	out.Emit(clusterEvent{Ev: "end", List: []int{}, Round: rounds, Quiet: quiet, Holders: w.holders(), Down: []int{}, Tasks: []taskJ{}, Rep2: [][]int{}, Del: "none"})
+	out.Emit(clusterEvent{Ev: "end", List: []int{}, Round: rounds, Quiet: quiet, Holders: w.holders(), Down: []int{}, Refuse: []int{}, Tasks: []taskJ{}, Rep2: [][]int{}, Del: "none"})
 }
 
 func randomCluster(r *rand.Rand, maxN int) clusterScenario {
